@@ -64,6 +64,25 @@ class Stream(pydyf.Stream):
         self._ctm_stack.pop()
         assert self._ctm_stack
 
+    def checkpoint(self):
+        """Get the current position in the stream, used by ``rollback``."""
+        resources = {
+            key: len(value) for key, value in self._resources.items()
+            if isinstance(value, dict)}
+        return len(self.stream), len(self._ctm_stack), resources
+
+    def rollback(self, checkpoint):
+        """Remove operations and resources added since the given checkpoint."""
+        operations, states, resources = checkpoint
+        del self.stream[operations:]
+        del self._ctm_stack[states:]
+        for key, length in resources.items():
+            for name in tuple(self._resources[key])[length:]:
+                del self._resources[key][name]
+        self._current_color = self._current_color_stroke = None
+        self._current_alpha = self._current_alpha_stroke = None
+        self._current_font = self._old_font = None
+
     def transform(self, a=1, b=0, c=0, d=1, e=0, f=0):
         super().set_matrix(a, b, c, d, e, f)
         self._ctm_stack[-1] = Matrix(a, b, c, d, e, f) @ self.ctm
